@@ -14,6 +14,7 @@ known findings.  Property modules (harness/props/cXX.py) provide
 Exit codes of a check: 0 held, 1 violation (VIOLATION line printed), 2 harness/build error.
 """
 import hashlib
+import ctypes
 import json
 import mmap
 import os
@@ -57,6 +58,20 @@ def digest_of(obj):
     return hashlib.blake2b(json.dumps(obj, sort_keys=True, default=str).encode(), digest_size=12).hexdigest()
 
 
+SEAM_KINDS = ("hostile_alloc", "realloc_forced_move", "free_poisoned", "heap_garbage_varied", "simulated_clock_read", "clock_jump", "io_event_logged")
+
+
+def seam_counters():
+    """cumulative activity at the C seams of the loaded librebound build (zeros if the build has none)"""
+    try:
+        from . import rb
+        out = (ctypes.c_uint64 * 8)()
+        rb.L.verif_seam_counters(out)
+        return list(out[:7])
+    except Exception:
+        return [0] * 7
+
+
 def load_known():
     p = os.path.join(VERIF, "known_findings.json")
     if not os.path.exists(p):
@@ -78,7 +93,9 @@ def _worker_loop(mod, seed, tier, w, nworkers, start, stop_at, max_index, wfd, j
         struct.pack_into("<qqd", journal, 0, i, -1, time.time())
         try:
             case = mod.generate(run_rng(seed, mod.ID, i), tier, i)
+            c0 = seam_counters()
             res = mod.execute(case, ctx)
+            res["seam"] = [b - a for a, b in zip(c0, seam_counters())]
             res["index"] = i
             if res.get("viols") or i < 3 * nworkers:
                 res["case"] = case
@@ -386,6 +403,10 @@ def check(mod, tier):
             a = faults.setdefault(k, [0, 0])
             a[0] += v[0]
             a[1] += v[1]
+        for k, n in zip(SEAM_KINDS, r.get("seam") or ()):
+            a = faults.setdefault(k, [0, 0])      # [runs in which the seam acted, total events]
+            a[0] += 1 if n else 0
+            a[1] += n
         for k, v in (r.get("sim") or {}).items():
             simt[k] = simt.get(k, 0) + v
         if "case" in r and len(samples) < 3 and not r.get("viols"):
